@@ -104,26 +104,19 @@ func c02FreeIP(p *chk.Prog, r *chk.Report) {
 }
 
 func c02Member(p *chk.Prog, r *chk.Report) {
-	x := r.Rule("MEMBER", "B path", "in allocator.poolFor an address is counted as a member of pool p only behind the false edge of `p.AvoidBuggyIPs && ipConfusesBuggyFirmwares(ip)` and a true cidr.Contains(ip) for a CIDR of p; p is returned only when the count equals len(ips)", 3)
+	x := r.Rule("MEMBER", "B path", "allocator.poolFor returns a pool p (a non-nil result) only if for every element ip of ips: not (p.AvoidBuggyIPs && ipConfusesBuggyFirmwares(ip)), and cidr.Contains(ip) for a CIDR of p - established through one of the for-all idioms (early exit, flag, counter == len(ips))", 2)
 	f := need(x, p, allocPkg, "", "poolFor")
 	if f == nil {
 		return
 	}
 	g := f.Graph()
-	incs := g.Find(func(n ast.Node) bool { _, ok := n.(*ast.IncDecStmt); return ok })
-	if len(incs) != 1 {
-		x.Fail("poolFor:counter", f.Pos(), "expected exactly one membership counter increment")
+	ipLoops := f.RangeLoops(isParamIdx(f, 1))
+	poolLoops := f.RangeLoops(isParamIdx(f, 0))
+	if len(ipLoops) != 1 || len(poolLoops) != 1 {
+		x.Fail("poolFor:loops", f.Pos(), "expected one loop over the pools and one over the addresses")
 		return
 	}
-	inc := incs[0]
-	cnt := f.ObjOf(inc.Node.(*ast.IncDecStmt).X)
-	var ipVar, poolVar func(ast.Expr) bool = func(ast.Expr) bool { return false }, func(ast.Expr) bool { return false }
-	for _, rs := range f.RangeLoops(isParam(f, "ips")) {
-		ipVar = rangeVal(f, rs)
-	}
-	for _, rs := range f.RangeLoops(isParam(f, "pools")) {
-		poolVar = rangeVal(f, rs)
-	}
+	ipVar, poolVar := rangeVal(f, ipLoops[0]), rangeVal(f, poolLoops[0])
 	cidrOfPool := func(e ast.Expr) bool {
 		for _, rs := range f.RangeLoops(func(x ast.Expr) bool { return f.MatchWith("P.CIDR", x, chk.H("P", poolVar)) != nil }) {
 			if rangeVal(f, rs)(e) {
@@ -132,15 +125,22 @@ func c02Member(p *chk.Prog, r *chk.Report) {
 		}
 		return false
 	}
-	x.Check("poolFor:count:buggy-filter", inc.Pos(), g.Dominated(inc, g.GPat(false, "P.AvoidBuggyIPs && ipConfusesBuggyFirmwares(IP)", chk.H("P", poolVar), chk.H("IP", ipVar))), "", "a .0/.255 address can count as member of an avoid-buggy pool")
-	x.Check("poolFor:count:contains", inc.Pos(), g.Dominated(inc, g.GPat(true, "C.Contains(IP)", chk.H("C", cidrOfPool), chk.H("IP", ipVar))), "", "an address can count as member without a CIDR of that pool containing that address")
+	notBuggy := g.GPat(false, "P.AvoidBuggyIPs && ipConfusesBuggyFirmwares(IP)", chk.H("P", poolVar), chk.H("IP", ipVar))
+	contains := g.GPat(true, "C.Contains(IP)", chk.H("C", cidrOfPool), chk.H("IP", ipVar))
+	n := 0
 	for _, rt := range returnsOf(g) {
 		res := retResults(rt)
 		if len(res) != 1 || f.IsNilLit(res[0]) {
 			continue
 		}
-		x.Check("poolFor:return-pool:all-members", rt.Pos(), g.Dominated(rt, g.GPat(true, "CNT == len(IPS)", chk.H("CNT", f.IsObj(cnt)), chk.H("IPS", isParam(f, "ips")))), "", "a pool is returned although not every address is a member")
+		n++
+		x.Check("poolFor:return-pool:is-the-examined-pool", rt.Pos(), poolVar(res[0]), "", "poolFor returns a pool other than the one whose CIDRs were examined")
+		why := forallBefore(f, g, ipLoops[0], notBuggy, rt)
+		x.Check("poolFor:return-pool:no-buggy-address", rt.Pos(), why == "", "", "a pool that avoids buggy addresses can be returned for a .0/.255 address: "+why)
+		why = forallBefore(f, g, ipLoops[0], contains, rt)
+		x.Check("poolFor:return-pool:all-members", rt.Pos(), why == "", "", "a pool can be returned although not every address lies in one of its CIDRs: "+why)
 	}
+	x.Check("poolFor:returns-a-pool", f.Pos(), n > 0, "", "poolFor never returns a pool")
 }
 
 func c02Allocate(p *chk.Prog, r *chk.Report) {
@@ -393,39 +393,38 @@ func c02Requests(p *chk.Prog, r *chk.Report) {
 		wb := g.BranchAlways(me, f.ContainsPat("RECV.ips.Unassign(K)", chk.H("K", isParam(f, "key"))))
 		x.Check("allocateIPs:requested-ips:pool-mismatch-releases", posOf(wb, f), !wb.Found, "", "requested addresses that contradict the requested pool stay assigned (leak)")
 	}
-	// requested pool branch
-	pe := g.EdgesImplying(g.GPat(true, `DP != ""`, chk.H("DP", dpool)))
-	okPool := false
-	for _, ed := range pe {
-		if _, isIf := ed.B.Succs[0].Stmt.(*ast.IfStmt); !isIf {
+	// requested pool: with desiredPool != "" (and no requested addresses) only AllocateFromPool(…, desiredPool, …) produces the address
+	hasPool := g.GPat(true, `DP != ""`, chk.H("DP", dpool))
+	noPool := g.GPat(false, `DP != ""`, chk.H("DP", dpool))
+	if !g.EdgeImpliesAny(hasPool) {
+		x.Fail("allocateIPs:requested-pool:branch", f.Pos(), "no test of desiredPool != \"\"")
+	}
+	okPool := true
+	for _, c := range g.FindCalls(allocA+"Allocate", allocA+"AllocateFromPoolForAdditionalFamily") {
+		if !g.Dominated(c, noPool) {
+			okPool = false
+		}
+	}
+	nFrom := 0
+	for _, c := range g.FindCalls(allocA + "AllocateFromPool") {
+		nFrom++
+		call := c.Node.(*ast.CallExpr)
+		if len(call.Args) < 4 || !dpool(call.Args[3]) || !g.Dominated(c, hasPool) {
+			okPool = false
+		}
+	}
+	for _, rt := range returnsOf(g) {
+		res := retResults(rt)
+		if len(res) != 2 || !f.IsNilLit(res[1]) {
 			continue
 		}
-		if cond := ed.B.Nodes[len(ed.B.Nodes)-1]; f.MatchNew(`DP != ""`, cond.(ast.Expr)) == nil {
-			continue // the conjunction inside the requested-ips branch
-		}
-		st := chk.Site{G: g, B: ed.B.Succs[ed.K], I: 0}
-		wa := (&chk.Walk{G: g, From: st, Inclusive: true, Hit: f.ContainsCallTo(allocA+"Allocate", allocA+"AllocateFromPoolForAdditionalFamily")}).Run()
-		good := !wa.Found
-		for _, c := range g.FindCalls(allocA + "AllocateFromPool") {
-			call := c.Node.(*ast.CallExpr)
-			if !dpool(call.Args[3]) || !g.Dominated(c, g.GPat(true, `DP != ""`, chk.H("DP", dpool))) {
-				good = false
+		if g.Dominated(rt, hasPool) && g.Dominated(rt, chk.GNot(reqIPs)) {
+			if !definedBy(g, "RECV.ips.AllocateFromPool(K, S, FAM, DP, ETC)", chk.H("DP", dpool))(res[0]) {
+				okPool = false
 			}
 		}
-		// all success returns are what AllocateFromPool returned
-		wr := (&chk.Walk{G: g, From: st, Inclusive: true, Hit: func(n ast.Node) bool {
-			rs, ok := n.(*ast.ReturnStmt)
-			if !ok || len(rs.Results) != 2 || !f.IsNilLit(rs.Results[1]) {
-				return false
-			}
-			return !definedBy(g, "RECV.ips.AllocateFromPool(K, S, FAM, DP, ETC)", chk.H("DP", dpool))(rs.Results[0])
-		}}).Run()
-		okPool = good && !wr.Found
-		x.Check("allocateIPs:requested-pool:only-that-pool", ed.B.Nodes[len(ed.B.Nodes)-1].Pos(), okPool, "", "with a requested pool something other than AllocateFromPool(…, desiredPool, …) can produce the address")
 	}
-	if len(pe) == 0 {
-		x.Fail("allocateIPs:requested-pool:branch", f.Pos(), "no `if desiredPool != \"\"` branch")
-	}
+	x.Check("allocateIPs:requested-pool:only-that-pool", f.Pos(), okPool && nFrom > 0, "", "with a requested pool something other than AllocateFromPool(…, desiredPool, …) can produce the address")
 	// AllocateFromPool itself draws only from the named pool
 	af := need(x, p, allocPkg, "Allocator", "AllocateFromPool")
 	if af != nil {
